@@ -188,6 +188,138 @@ def gen_bind(rng, reg, scope, value=None, full_spelling=True):
   if not cand:
     return None
   arg = rng.choice(cand)
+  form = rng.choice(['tuple', 'tuple', 'list', 'str', 'text', 'block'])
   return {'op': 'bind', 'scope': '/'.join(scope), 'sel': reg['_selector'], 'arg': arg,
-          'val': gen_value(rng, 0) if value is None else value,
-          '_form': rng.choice(['tuple', 'tuple', 'list', 'str', 'text', 'block'])}
+          'val': gen_value(rng, 0) if value is None else value, '_form': form, 'block': form == 'block'}
+
+
+# ------------------------------------------------------------------ state histories (C11, C12, C20)
+
+def gen_class_with_method(rng, obj0, module='m'):
+  """A class registered with register/external_configurable whose method was registered first."""
+  mname = rng.choice(['meth', 'run'])
+  cname = rng.choice(['K', 'L'])
+  msig = {'pos': [['self', None], ['y', None], ['x', {'v': 1}]], 'kwonly': [], 'varargs': False, 'varkw': False}
+  mop = {'op': 'register', 'name': mname, 'nameValid': True, 'module': module, 'moduleValid': True, 'sig': msig,
+         'allow': [], 'deny': [], 'listTypesOk': True, 'obj': obj0, 'method': False, 'methods': [],
+         '_skip_impl': True, '_selector': f'{module}.{cname}.{mname}', '_kind': 'fn', '_api': 'method'}
+  cop = {'op': 'register', 'name': cname, 'nameValid': True, 'module': module, 'moduleValid': True,
+         'sig': {'pos': [['self', None]], 'kwonly': [], 'varargs': False, 'varkw': False},
+         'allow': [], 'deny': [], 'listTypesOk': True, 'obj': obj0 + 1, 'method': False,
+         'methods': [f'{module}.{mname}'], '_method_ops': [mop], '_pymodule': module,
+         '_selector': f'{module}.{cname}', '_kind': 'init', '_api': rng.choice(['register', 'external'])}
+  return [mop, cop]
+
+
+def param_classes(reg):
+  """name -> class of the parameter w.r.t. bindability."""
+  sig, kind = reg['sig'], reg.get('_kind', 'fn')
+  pos, kwo = sig_names(sig, kind)
+  out = {}
+  for n in pos + kwo:
+    out[n] = 'valid'
+  if sig['varkw']:
+    out['anyk'] = 'valid'
+  else:
+    out['nope'] = 'unknown'
+  for n in list(out):
+    if reg['allow'] and n not in reg['allow']:
+      out[n] = 'unlisted' if out[n] == 'valid' else out[n]
+    if reg['deny'] and n in reg['deny']:
+      out[n] = 'denied' if out[n] == 'valid' else out[n]
+  return out
+
+
+def gen_bind_attempt(rng, regs, scopes, forms=('tuple', 'list', 'str', 'text', 'block')):
+  reg = rng.choice(regs)
+  sel = reg['_selector']
+  r = rng.random()
+  if r < 0.12:
+    spelled = rng.choice(['zz', 'zz.f', sel + 'x', 'q.' + sel])
+  elif r < 0.55:
+    spelled = sel
+  else:
+    spelled = spell(rng, sel)
+  cls = param_classes(reg)
+  arg = rng.choice(list(cls)) if cls else 'nope'
+  form = rng.choice(forms)
+  return {'op': 'bind', 'scope': '/'.join(rng.choice(scopes)), 'sel': spelled, 'arg': arg,
+          'val': gen_value(rng, 1), '_form': form, 'block': form == 'block', '_reg': reg['obj'],
+          '_pclass': cls.get(arg, 'unknown')}
+
+
+def gen_hook(rng, regs, scopes, w_raise=0.1, earlier=None):
+  """A data-driven finalize hook.  With `earlier` (keyspecs returned by previous hooks) it sometimes
+  re-targets one of those parameters under another spelling (conflict detection)."""
+  if rng.random() < w_raise:
+    return {'op': 'hook', 'ret': None, 'raises': True}
+  if rng.random() < 0.12:
+    return {'op': 'hook', 'ret': None, 'raises': False}
+  ret, seen = [], set()
+  for _ in range(rng.randint(1, 2)):
+    if earlier and rng.random() < 0.35:
+      ks0, reg = rng.choice(earlier)
+      ks = {'scope': ks0['scope'], 'sel': spell(rng, reg['_selector']) if rng.random() < 0.7 else reg['_selector'],
+            'arg': ks0['arg'], '_form': rng.choice(['str', 'tuple']), '_reg': reg['obj']}
+      val = gen_value(rng, 1)
+    else:
+      b = gen_bind_attempt(rng, regs, scopes)
+      if rng.random() < 0.85 and b['_pclass'] != 'valid':
+        continue
+      ks = {'scope': b['scope'], 'sel': b['sel'], 'arg': b['arg'], '_form': rng.choice(['str', 'tuple']),
+            '_reg': b['_reg']}
+      val = b['val']
+    ident = (ks['_form'], ks['scope'], ks['sel'], ks['arg'])
+    if ident in seen:
+      continue
+    seen.add(ident)
+    ret.append([ks, val])
+  return {'op': 'hook', 'ret': ret, 'raises': False}
+
+
+def hook_keyspecs(hook, regs):
+  byobj = {r['obj']: r for r in regs}
+  return [(ks, byobj[ks['_reg']]) for ks, _ in (hook['ret'] or []) if ks.get('_reg') in byobj]
+
+
+def gen_late_register(rng, obj):
+  """A registration attempted in the middle of a history (valid unless the config is locked)."""
+  sig = gen_sig(rng, 'fn', max_params=2)
+  name = 'late%d' % obj
+  return {'op': 'register', 'name': name, 'nameValid': True, 'module': 'lm', 'moduleValid': True, 'sig': sig,
+          'allow': [], 'deny': [], 'listTypesOk': True, 'obj': obj, 'method': False, 'methods': [],
+          '_kind': 'fn', '_api': rng.choice(['configurable', 'register', 'external']), '_pymodule': 'lm',
+          '_selector': 'lm.' + name}
+
+
+def gen_history(rng, regs, n, scopes, depth=0, w=None, next_obj=None):
+  """Ops over {bind, finalize, unlock(body, raises?), nested unlock, register, clear, hook, observe}."""
+  w = w or {}
+  next_obj = next_obj if next_obj is not None else [max(r['obj'] for r in regs) + 10]
+  ops, earlier = [], []
+  for _ in range(n):
+    r = rng.random()
+    if r < 0.30:
+      b = gen_bind_attempt(rng, regs, scopes)
+      if b['_pclass'] != 'valid' and rng.random() < 0.6:
+        b = gen_bind_attempt(rng, regs, scopes)
+      ops.append(b)
+    elif r < 0.42:
+      ops.append({'op': 'finalize'})
+    elif r < 0.56 and depth < 2:
+      body = gen_history(rng, regs, rng.randint(0, 4), scopes, depth + 1, w, next_obj)
+      ops.append({'op': 'unlock', 'body': body, 'raises': rng.random() < 0.5})
+    elif r < 0.62:
+      next_obj[0] += 1
+      ops.append(gen_late_register(rng, next_obj[0]))
+    elif r < 0.68 and depth == 0:
+      ops.append({'op': 'clear', 'constants': rng.random() < 0.3})
+    elif r < 0.76:
+      h = gen_hook(rng, regs, scopes, w_raise=w.get('hook_raise', 0.15), earlier=earlier)
+      earlier += hook_keyspecs(h, regs)
+      ops.append(h)
+    elif r < 0.9:
+      ops.append({'op': 'locked'})
+    else:
+      ops.append({'op': 'config'})
+  return ops
